@@ -44,7 +44,7 @@ var c02 = Register("C02", "C02.mulquo", func(a c02Args) *Violation {
 	default:
 		exact = ref.MulX(nx, ny)
 	}
-	for _, m := range ref.Modes {
+	for _, m := range loopModes() {
 		var got d128.Decimal
 		if a.Quo {
 			got = x.QuoWithMode(y, m)
